@@ -1,4 +1,5 @@
 import Aurora.Lemmas.Localstore
+import Aurora.Lemmas.LocalstoreAcct
 /-!
 C13 — Cache accounting keeps garbage collection bounded.
 
@@ -200,6 +201,109 @@ theorem C13_bounded_counterexample : ¬ C13_bounded_full := by
       .get .request (some 1) 2, .get .request (some 5) 5]) := reachable_runOps _ _ (reachable_runOps _ _ (Reachable.init _))
   have := h po0 _ (pyrFun pyrTrue) 3 [1] hr (by decide) (by decide)
   revert this
+  decide
+
+/-! ## `inv_step` outside the triggers
+
+`C13_guard s op` (= `guardOp`, `Lemmas/LocalstoreAcct.lean`) is a decidable predicate on (state, op).  It is
+`true` for every lookup, `gcSelect`, `reopen`, capacity/clock change, every `Put` in the upload mode and every
+call with an invalid mode, and otherwise reads:
+
+* `Put`/`Set` — **either** every per-address step of the call is invisible to the accounting (`putQuiet` /
+  `setQuiet`; then any number of addresses is allowed): no root context for `ModePutRequest`/`ModeSetUnpin`; for the
+  pinning calls `ModePutRequestPin`/`ModeSetPin` the root has no access entry or is not stored (`rootQuiet`; the
+  call then fails before writing); for `ModeSetRemove` additionally "the root's key has no gc entry"
+  (`removeQuiet`); for `ModePutUploadPin` `rootQuiet` or "no gc entry" (the discarded change is then harmless);
+  `ModeSetSync` only on addresses that are not stored;
+  **or** the call carries at most ONE address, `gcSize + 1 < 2^64`, and (`putOne`/`setOne`) the mode is
+  `ModePutRequest`, `ModeSetUnpin`, or a pin/remove whose root's gc entry exists with `GCounter ≥ 1` (`rootOne`).
+  Excluded thereby, and only these: several addresses under an active root context (`inv-batched-call-root`,
+  `inv-failed-batch-keeps-direct-write`), `setPin` under a root without gc entry (`inv-pin-no-gc-entry`),
+  `ModePutUploadPin` under a root with a gc entry (`inv-uppin-discards-change`), `ModeSetSync` of a stored chunk and
+  any pin/remove over a `GCounter = 0` entry it left (`inv-sync-zero-counter`, `inv-gc-zero-counter-entry`).
+  `inv-silent-skip` needs a state that already violates `Inv` (premise `Inv s` excludes it: under `Inv` and the
+  guard a decrement never exceeds `gcSize` — that is part of the proof).
+* `Get`/`GetMulti` in request mode — `rekeyOk`: re-keying the root's entry to `(now, bin, root)` does not land on
+  another existing entry (`C13_inv_step_rekey_counterexample`; such a stale entry exists only after
+  `inv-batched-call-root` with an advancing clock, and `now` must step back onto its timestamp).
+* `gcEvict` — `evictFaithful`: not inside a run, or something was recycled and the number of chunks the run
+  deleted (+1 per recycled root) equals Σ GCounter of the recycled entries (excludes
+  `inv-gc-nothing-recycled-forces-zero` and `inv-gc-pyramid-count-mismatch`). -/
+
+/-- the guard of `C13_inv_step_partial` -/
+def C13_guard (s : State) (op : Op) : Bool := guardOp s op
+
+theorem C13_inv_iff (s : State) : Inv s ↔ InvDb s.db := Iff.rfl
+
+/-- `inv_step` (partial — guard `C13_guard`, which excludes exactly the documented triggers): every
+operation, in every state whose gc index has unique keys (all reachable states, `C13_reachable_gcWF`),
+inside or outside a collection run, keeps `gcSize = Σ GCounter`.  Missing for the full clause: the
+trigger shapes, each refuted by its `_counterexample` theorem. -/
+theorem C13_inv_step_partial (po : Addr → Nat) (s : State) (op : Op) (hw : GcWF s.db) (hi : Inv s)
+    (hg : C13_guard s op = true) : Inv (step po s op) :=
+  step_inv po s op hw hi hg
+
+/-- every reachable state has unique gc keys (so the premise `GcWF` of the step theorem is no restriction) -/
+theorem C13_reachable_gcWF (po : Addr → Nat) (s : State) (h : Reachable po s) : GcWF s.db := by
+  induction h with
+  | init cap => exact gcWF_init cap
+  | step op _ ih => exact step_gcWF po _ op ih
+
+/-- the step theorem in the form of `C13_inv_step_full` (reachable states), with the guard added -/
+theorem C13_inv_step_reachable_partial (po : Addr → Nat) (s : State) (op : Op) (hr : Reachable po s)
+    (hi : Inv s) (hg : C13_guard s op = true) : Inv (step po s op) :=
+  C13_inv_step_partial po s op (C13_reachable_gcWF po s hr) hi hg
+
+/-- `inv` over histories (partial): every history from the empty store all of whose steps satisfy the
+guard keeps the invariant — put/get/set in every mode, collection runs with racing accesses, reopen. -/
+theorem C13_inv_histories_partial (po : Addr → Nat) (cap : Nat) (ops : List Op)
+    (hg : guardH po (init cap) ops = true) : Inv (runH po (init cap) ops) :=
+  hist_inv po ops (init cap) (gcWF_init cap) (C13_inv_init cap) hg
+
+/-- non-vacuity: a guarded history with cached files, a root-context get (re-keying), pin and unpin under a
+root, a batched upload, removals with and without root context, and a faithful collection run followed
+by a reopen; it ends with one cached chunk accounted for. -/
+example :
+    let ops : List Op := [.put .request (some 1) [(1, [])], .put .request (some 1) [(2, [])],
+      .put .request (some 5) [(5, [])], .get .request (some 1) 2, .set .pin (some 5) [5], .set .unpin (some 5) [5],
+      .put .upload none [(6, []), (7, [])], .put .uploadPin none [(8, []), (9, [])], .set .remove none [6, 8],
+      .put .request (some 5) [(4, [])], .set .remove (some 5) [4],
+      .setCapacity 2, .gcSelect, .gcEvict pyrTrue, .reopen]
+    guardH po0 s0 ops = true ∧ (runH po0 s0 ops).db.gcSize = 1 ∧ (runH po0 s0 ops).db.gc.length = 1 := by decide
+
+/-! ### every excluded shape is covered by its counterexample: the guard is false exactly there -/
+
+theorem C13_guard_excludes_batched : C13_guard sFile (.put .request (some 1) [(3, []), (4, [])]) = false := by decide
+theorem C13_guard_excludes_pin_repeated :
+    C13_guard (runOps sFile [.put .request (some 5) [(5, [])], .set .pin (some 1) [1], .set .pin (some 1) [2]])
+      (.set .pin (some 1) [2]) = false := by decide
+theorem C13_guard_excludes_uppin : C13_guard sFile (.put .uploadPin (some 1) [(3, [])]) = false := by decide
+theorem C13_guard_excludes_sync :
+    C13_guard (runOps s0 [.put .upload none [(1, [])]]) (.set .sync none [1]) = false := by decide
+theorem C13_guard_excludes_failed_batch : C13_guard sFile (.set .pin (some 1) [1, 7]) = false := by decide
+theorem C13_guard_excludes_gc_all_dirty :
+    C13_guard (runOps sFile [.put .request (some 5) [(5, [])], .setCapacity 2, .gcSelect,
+      .get .request (some 1) 2, .get .request (some 5) 5]) (.gcEvict pyrTrue) = false := by decide
+theorem C13_guard_excludes_gc_shared_chunk :
+    C13_guard (runOps sFile [.put .request (some 1) [(3, [])], .setCapacity 2, .gcSelect]) (.gcEvict pyrTrue) = false := by
+  decide
+
+/-- … and the single-address forms of the same calls pass the guard (it is the shape that is excluded) -/
+example : C13_guard sFile (.put .request (some 1) [(3, [])]) = true ∧
+    C13_guard sFile (.set .pin (some 1) [1]) = true ∧
+    C13_guard sFile (.put .uploadPin none [(3, []), (4, [])]) = true ∧
+    C13_guard (runOps sFile [.put .request (some 5) [(5, [])], .setCapacity 2, .gcSelect]) (.gcEvict pyrTrue) = true := by
+  decide
+
+/-- trigger of the `rekeyOk` clause: after a batched request put with an advancing clock the root has two
+gc entries (ts 12 and 14, access entry 14, `Inv` still holds); when `now` steps back onto 12, a
+`Get(ModeGetRequest)` re-keys the live entry onto the stale one and Σ drops while gcSize stays.
+(Replayed on the real code: `now 16 1; put up - 80:aa; put req 80 81:bb,c0:cc; now 18 0; get req 80 81`
+gives `G[18:1:80=1] S=2`.) -/
+theorem C13_inv_step_rekey_counterexample :
+    let s := runOps s0 [.setClock 10 1, .put .upload none [(1, [])], .put .request (some 1) [(2, []), (3, [])],
+                        .setClock 12 0]
+    Inv s ∧ ¬ Inv (step po0 s (.get .request (some 1) 2)) ∧ C13_guard s (.get .request (some 1) 2) = false := by
   decide
 
 end Aurora.Localstore
